@@ -273,6 +273,9 @@ class Env:
                 fl = [c for c in exc_flavours() if self.flavours == "all" or c.__name__ != "OpCircuitOpen"]
                 ecls = fl[(n + self.call_index) % len(fl)]
             exc = ecls(n, sc["k"], sc["ra"])
+            if isinstance(exc, TimeoutError):
+                # as raised by an inner asyncio.timeout() / wait_for(): chained to a CancelledError
+                exc.__cause__ = asyncio.CancelledError()
         elif out == "abort":
             from redress.errors import AbortRetryError
             exc = AbortRetryError()
